@@ -3,7 +3,7 @@
 import json, subprocess
 
 HOOK_COMMITS = ["ac08067"]
-FIX_COMMITS = ["ee1d815", "296be57", "098316b", "7098e6b", "bcffdd6", "589a9d1", "787a52b"]
+FIX_COMMITS = ["ee1d815", "296be57", "098316b", "7098e6b", "bcffdd6", "589a9d1", "787a52b", "01dcc1c"]
 
 # id -> (technique, level text, level note, design ref)
 CHECKS = {
@@ -31,6 +31,9 @@ CHECKS = {
  "C14": ("bounded-exhaustive enumeration of input directories (E1) through pyxis::build; directory listing and syn item inspection",
          "Every non-empty subset of the module paths {a, n/c, n/d/e, n}; one module at a time ranges over every subset of item kinds and every sequence of up to 2 backend blocks (rust prologue/epilogue/both, cpp); plus a collision menu that must be rejected. pyxis::build runs on real directories; the output listing must be exactly one .rs per module, each file's struct/enum/accessor multiset must equal the declared one plus generated vftable structs, prologue items first and epilogue items last in source order, no foreign backend text.",
          "File-system enumeration order is whatever glob yields in this sandbox.", "DESIGN.md §6 C14"),
+ "C16": ("bounded-exhaustive enumeration of calling-convention declarations (E1); ABI strings read with syn from the unmodified output, acceptance by rustc on i686-pc-windows-msvc",
+         "Every choice of convention (absent, the seven names, an invalid name) for a virtual function and independently for an address-bound impl function, every receiver form, inheritance depth 1..3 with the slot re-declared at each level, with and without placeholder slots: the ABI string of every vftable slot at every level, of placeholder slots, and of the wrapper's function-pointer type must be the declared name or the receiver-based default; invalid names must be rejected; every accepted output is compiled unmodified for i686-pc-windows-msvc.",
+         "syn's reading of `extern \"..\"` strings; rustc nightly's ABI table for the i686 msvc target.", "DESIGN.md §6 C16"),
 }
 
 NOT_YET = {
